@@ -529,4 +529,138 @@ theorem average_between (p : Bool) (n : Nat) (bs : List Blk) (r : List Rat) (h :
     obtain ⟨b, hb, rfl⟩ := hxm
     exact hx b hb
 
+/-! ## environment groups by burnup and temperature bounds -/
+
+/-- the index is within the number of groups (bounds + the implicit ∞) -/
+theorem firstLE_le (x : Rat) (bounds : List Rat) : firstLE x bounds ≤ bounds.length := by
+  induction bounds with
+  | nil => simp [firstLE]
+  | cons b bs ih => simp only [firstLE, List.length_cons]; split <;> omega
+
+/-- characterisation: every bound before the chosen index is below x, and the chosen bound (if any) is ≥ x -/
+theorem firstLE_spec (x : Rat) (bounds : List Rat) :
+    (∀ j, j < firstLE x bounds → ∃ b, bounds[j]? = some b ∧ b < x) ∧
+    (∀ b, bounds[firstLE x bounds]? = some b → x ≤ b) := by
+  induction bounds with
+  | nil => simp [firstLE]
+  | cons b bs ih =>
+    simp only [firstLE]
+    split
+    · rename_i hle
+      exact ⟨fun j hj => by omega, fun b' hb' => by simp at hb'; rw [← hb']; exact hle⟩
+    · rename_i hnle
+      refine ⟨?_, ?_⟩
+      · intro j hj
+        cases j with
+        | zero => exact ⟨b, by simp, lt_of_not_ge hnle⟩
+        | succ j =>
+          obtain ⟨b', hb', hlt⟩ := ih.1 j (by omega)
+          exact ⟨b', by simpa using hb', hlt⟩
+      · intro b' hb'
+        rw [Nat.add_comm] at hb'
+        simp only [List.getElem?_cons_succ] at hb'
+        exact ih.2 b' hb'
+
+/-- **a higher burnup (or temperature) never gives a lower group index** — for any list of bounds -/
+theorem firstLE_monotone (x y : Rat) (h : x ≤ y) (bounds : List Rat) :
+    firstLE x bounds ≤ firstLE y bounds := by
+  induction bounds with
+  | nil => simp [firstLE]
+  | cons b bs ih =>
+    simp only [firstLE]
+    split <;> split
+    · omega
+    · omega
+    · rename_i h1 h2; exact absurd (le_trans h h2) h1
+    · omega
+
+/-- **every block gets exactly one environment group, and it is a valid one**: whenever grouping is active the
+group number exists, is below (#burnup groups)·(#temperature groups), and decodes to its two indices. -/
+theorem env_group_total (bu : Rat) (bb : List Rat) (ut : Bool) (t : Rat) (tb : List Rat)
+    (h : ¬ (bb.length + 1 = 1 ∧ tb.length + 1 = 1)) :
+    ∃ n, envGroupNum bu bb ut t tb = some n ∧ n < (bb.length + 1) * (tb.length + 1) ∧
+      n % (bb.length + 1) = firstLE bu bb ∧
+      n / (bb.length + 1) = (if ut = true ∧ tb.length + 1 > 1 then firstLE t tb else 0) := by
+  have hb := firstLE_le bu bb
+  have ht := firstLE_le t tb
+  unfold envGroupNum
+  simp only [h, if_false]
+  refine ⟨_, rfl, ?_, ?_, ?_⟩
+  · have : (if ut = true ∧ tb.length + 1 > 1 then firstLE t tb else 0) ≤ tb.length := by split <;> omega
+    calc _ < (if ut = true ∧ tb.length + 1 > 1 then firstLE t tb else 0) * (bb.length + 1) + (bb.length + 1) := by omega
+      _ = ((if ut = true ∧ tb.length + 1 > 1 then firstLE t tb else 0) + 1) * (bb.length + 1) := by ring
+      _ ≤ (tb.length + 1) * (bb.length + 1) := Nat.mul_le_mul_right _ (by omega)
+      _ = (bb.length + 1) * (tb.length + 1) := by ring
+  · rw [Nat.mul_comm, Nat.mul_add_mod]; exact Nat.mod_eq_of_lt (by omega)
+  · rw [Nat.mul_comm, Nat.mul_add_div (by omega), Nat.div_eq_of_lt (by omega)]; simp
+
+/-- with a single burnup and a single temperature group the groups are left untouched -/
+theorem env_group_single (bu t : Rat) (ut : Bool) : envGroupNum bu [] ut t [] = none := by
+  simp [envGroupNum]
+
+/-- **monotone in burnup and in temperature** -/
+theorem env_group_monotone (bu1 bu2 t1 t2 : Rat) (bb tb : List Rat) (ut : Bool)
+    (hbu : bu1 ≤ bu2) (ht : t1 ≤ t2) (n1 n2 : Nat)
+    (h1 : envGroupNum bu1 bb ut t1 tb = some n1) (h2 : envGroupNum bu2 bb ut t2 tb = some n2) : n1 ≤ n2 := by
+  unfold envGroupNum at h1 h2
+  simp only at h1 h2
+  split at h1
+  · cases h1
+  · simp only [Option.some.injEq] at h1 h2
+    rw [if_neg (by assumption)] at h2
+    simp only [Option.some.injEq] at h2
+    subst h1; subst h2
+    have hb := firstLE_monotone bu1 bu2 hbu bb
+    have ht' := firstLE_monotone t1 t2 ht tb
+    split
+    · exact Nat.add_le_add (Nat.mul_le_mul_right _ ht') hb
+    · omega
+
+/-- two blocks have the same environment group number exactly when their burnup group and their
+temperature group agree -/
+theorem env_group_eq_iff (bu1 bu2 t1 t2 : Rat) (bb tb : List Rat) (ut : Bool) (n1 n2 : Nat)
+    (h1 : envGroupNum bu1 bb ut t1 tb = some n1) (h2 : envGroupNum bu2 bb ut t2 tb = some n2) :
+    n1 = n2 ↔ (firstLE bu1 bb = firstLE bu2 bb ∧
+      (if ut = true ∧ tb.length + 1 > 1 then firstLE t1 tb else 0) =
+      (if ut = true ∧ tb.length + 1 > 1 then firstLE t2 tb else 0)) := by
+  have hs : ¬ (bb.length + 1 = 1 ∧ tb.length + 1 = 1) := by
+    intro hh; simp [envGroupNum, hh] at h1
+  obtain ⟨m1, e1, _, hm1, hd1⟩ := env_group_total bu1 bb ut t1 tb hs
+  obtain ⟨m2, e2, _, hm2, hd2⟩ := env_group_total bu2 bb ut t2 tb hs
+  rw [h1] at e1; rw [h2] at e2
+  cases e1; cases e2
+  constructor
+  · intro h; subst h; exact ⟨hm1.symm.trans hm2, hd1.symm.trans hd2⟩
+  · rintro ⟨hb, ht⟩
+    have := Nat.div_add_mod n1 (bb.length + 1)
+    have := Nat.div_add_mod n2 (bb.length + 1)
+    rw [hm1, hd1] at *; rw [hm2, hd2] at *
+    rw [hb, ht] at *; omega
+
+private theorem envNumToChar_inj : ∀ n1 < 52, ∀ n2 < 52, envNumToChar n1 = envNumToChar n2 → n1 = n2 := by
+  decide +kernel
+
+/-- **the grouping clause**: two blocks with one-letter XS types whose environment groups were refreshed
+(at most 52 groups) share an XS group — i.e. have the same micro suffix, the key of `groups_partition` —
+exactly when XS type, burnup group and temperature group all agree. -/
+theorem share_group_iff (x1 x2 : Nat) (bu1 bu2 t1 t2 : Rat) (bb tb : List Rat) (ut : Bool)
+    (n1 n2 c1 c2 : Nat)
+    (h1 : envGroupNum bu1 bb ut t1 tb = some n1) (h2 : envGroupNum bu2 bb ut t2 tb = some n2)
+    (hn1 : n1 < 52) (hn2 : n2 < 52) (hc1 : envNumToChar n1 = some c1) (hc2 : envNumToChar n2 = some c2) :
+    microSuffix [x1] [c1] = microSuffix [x2] [c2] ↔
+      (x1 = x2 ∧ firstLE bu1 bb = firstLE bu2 bb ∧
+        (if ut = true ∧ tb.length + 1 > 1 then firstLE t1 tb else 0) =
+        (if ut = true ∧ tb.length + 1 > 1 then firstLE t2 tb else 0)) := by
+  rw [suffix_determined, ← env_group_eq_iff bu1 bu2 t1 t2 bb tb ut n1 n2 h1 h2]
+  constructor
+  · rintro ⟨hx, hc⟩
+    refine ⟨hx, envNumToChar_inj n1 hn1 n2 hn2 ?_⟩
+    rw [hc1, hc2, hc]
+  · rintro ⟨hx, hn⟩
+    subst hn
+    rw [hc1] at hc2
+    exact ⟨hx, Option.some.inj hc2⟩
+
+example : envGroupNum (5/2) [1, 3] true 500 [400, 600] = some 4 := by decide +kernel
+
 end ArmiVerif.XsGroup
